@@ -55,6 +55,30 @@ func uniformAlpha(bits int, float bool) []uint64 {
 	return a
 }
 
+// widen replaces the 32-bit integer alphabets of a form by the wide one when
+// the thorough tier can afford the product.
+func widen(slots []slot, cap int) {
+	if !run.Thorough() {
+		return
+	}
+	prod := 1
+	for _, s := range slots {
+		n := len(s.vals)
+		if len(s.vals) == len(isaspec.I32Full) && s.vals[0] == isaspec.I32Full[0] && s.vals[len(s.vals)-1] == isaspec.I32Full[len(isaspec.I32Full)-1] {
+			n = len(isaspec.I32Wide)
+		}
+		prod *= n
+	}
+	if prod > cap {
+		return
+	}
+	for i, s := range slots {
+		if len(s.vals) == len(isaspec.I32Full) && s.vals[0] == isaspec.I32Full[0] && s.vals[len(s.vals)-1] == isaspec.I32Full[len(isaspec.I32Full)-1] {
+			slots[i].vals = isaspec.I32Wide
+		}
+	}
+}
+
 func sameReg(a, b isaspec.Operand) bool {
 	return a.IsReg() && b.IsReg() && a.Kind == b.Kind && a.Idx == b.Idx
 }
@@ -174,6 +198,9 @@ func (t *task) scalarEnumerate(bg *isaspec.State) {
 	}
 	if e.Fmt == "SOPP" || strings.Contains(e.Name, "pc_b64") {
 		slots = append(slots, slot{name: "pc", vals: []uint64{0x1000, 0xfffffff8, 0x7ffffffff0, 0}, set: func(st *isaspec.State, v uint64) { st.PC = v }})
+	}
+	if strings.HasSuffix(t.form.Group, "base") {
+		widen(slots, 600000)
 	}
 	pre := bg.Clone()
 	pre.V, pre.LDS = bg.V, bg.LDS // scalar instructions: bulk state stays the shared background
@@ -296,6 +323,9 @@ func (t *task) vectorEnumerate(bg *isaspec.State) {
 			}
 		}})
 	}
+	if strings.HasSuffix(t.form.Group, "base") {
+		widen(lanes, 70000)
+	}
 	total := 1
 	for _, s := range lanes {
 		total *= len(s.vals)
@@ -331,8 +361,8 @@ func (t *task) vectorEnumerate(bg *isaspec.State) {
 			} else {
 				var execs []uint64
 				switch {
-				case run.Thorough() && len(lanes) <= 2 && blocks <= 64:
-					execs = execAlpha
+				case blocks*len(unisProduct(unis)) <= 64 || (run.Thorough() && blocks <= 700):
+					execs = execAlpha // cheap forms: every EXEC value of the alphabet
 				default:
 					execs = []uint64{execAlpha[0], execAlpha[1+(b+runs)%(len(execAlpha)-1)]}
 				}
@@ -365,6 +395,15 @@ func (t *task) vectorEnumerate(bg *isaspec.State) {
 			break
 		}
 	}
+}
+
+// unisProduct has one element per combination of the uniform slots.
+func unisProduct(unis []slot) []struct{} {
+	n := 1
+	for _, u := range unis {
+		n *= len(u.vals)
+	}
+	return make([]struct{}, n)
 }
 
 func isExecDst(in *isaspec.Instr, e *isaspec.Entry) bool {
